@@ -426,9 +426,9 @@ def o_points(case, T):
 def build(chk: Check) -> None:
     chk.sub("norm_enum", o_norm, enum=e_norm, exhaustive_tiers=("thorough",), budget_s={"quick": 60, "thorough": 600})
     chk.sub("norm_nd_enum", o_norm_nd, enum=e_norm_nd, exhaustive_tiers=("quick", "thorough"))
-    chk.sub("norm_nd", o_norm_nd, strategy=s_norm_nd(), n={"quick": 1500, "thorough": 100000})
+    chk.sub("norm_nd", o_norm_nd, cov={"quick": 1000, "thorough": 100000}, strategy=s_norm_nd(), n={"quick": 1500, "thorough": 100000})
     chk.sub("norm_big", o_norm_big, strategy=s_norm_big(), n={"quick": 1500, "thorough": 100000})
     chk.sub("isect_enum", o_isect, enum=e_isect, exhaustive_tiers=("thorough",), budget_s={"quick": 60, "thorough": 600})
     chk.sub("padscale_enum", o_padscale, enum=e_padscale, exhaustive_tiers=("thorough",), budget_s={"quick": 60, "thorough": 600})
     chk.sub("boundary", o_boundary, strategy=s_boundary(), n={"quick": 800, "thorough": 50000})
-    chk.sub("from_points", o_points, strategy=s_points(), n={"quick": 6000, "thorough": 600000})
+    chk.sub("from_points", o_points, cov={"quick": 2500, "thorough": 300000}, strategy=s_points(), n={"quick": 6000, "thorough": 600000})
